@@ -42,11 +42,26 @@ def normalise(ops, obs):
     return nops, nobs, []
 
 
-def make_classes(parents, falsy=None):
-    """parents[i] = index of the parent class of class i, or None.  All use metaclass TrueSingleton.
+def _metaclasses():
+    """the metaclass itself, a plain subclass of it, and the usual abstract-singleton combination with abc.ABCMeta"""
+    import abc
+    from edgegraph.structure import singleton
+
+    class SubMeta(singleton.TrueSingleton):
+        pass
+
+    class AbcMeta(singleton.TrueSingleton, abc.ABCMeta):
+        pass
+    return [singleton.TrueSingleton, SubMeta, AbcMeta]
+
+
+def make_classes(parents, falsy=None, metas=None):
+    """parents[i] = index of the parent class of class i, or None.  All use metaclass TrueSingleton (metas[i] in (0, 1, 2):
+    directly / through a subclass of the metaclass / through a metaclass that also derives from abc.ABCMeta).
     falsy[i] in (0, 1, 2): root class i is an ordinary / empty-container-like (__len__ == 0) / __bool__-False class"""
     from edgegraph.structure import singleton
     classes = []
+    mcs = _metaclasses()
     for i, p in enumerate(parents):
         if p is None:
             def __init__(self, *a, **k):
@@ -64,9 +79,9 @@ def make_classes(parents, falsy=None):
                 ns["__len__"] = lambda self: 0
             elif f == 2:
                 ns["__bool__"] = lambda self: False
-            cls = singleton.TrueSingleton(f"S{i % 2}", (), ns)
+            cls = mcs[metas[i] if metas else 0](f"S{i % 2}", (), ns)
         else:
-            cls = singleton.TrueSingleton(f"S{i % 2}", (classes[p],), {})
+            cls = type(classes[p])(f"S{i % 2}", (classes[p],), {})
         classes.append(cls)
     return classes
 
@@ -77,7 +92,7 @@ class History(Leg):
     checkfn = "tcheck"
     case_type = "list top * list (option (nat * list (nat * nat)))"
     rule = ("random histories (len 3-24) of Construct(class,args) (1 in 10 with an __init__ that raises, 1 in 10 with an __init__ that clears all singletons while it runs)/Clear(class)/Clear(all) over 2-4 classes incl. "
-            "parent/child pairs, 2 in 5 root classes with falsy instances (__len__ == 0 or __bool__ False); non-trivial = contains a clear followed by a re-construction; distinct = distinct op list")
+            "parent/child pairs, 2 in 5 root classes with falsy instances (__len__ == 0 or __bool__ False), 2 in 5 root classes using the metaclass through a subclass of it (plain, or combined with abc.ABCMeta); non-trivial = contains a clear followed by a re-construction; distinct = distinct op list")
     quick_n = 600
     thorough_n = 20000
 
@@ -98,12 +113,13 @@ class History(Leg):
                 else:
                     ops.append(["X", None])
             falsy = [rng.choice([0, 0, 0, 1, 2]) if p is None else 0 for p in parents]
-            yield {"parents": parents, "ops": ops, "falsy": falsy}
+            metas = [rng.choice([0, 0, 0, 1, 2]) if p is None else 0 for p in parents]
+            yield {"parents": parents, "ops": ops, "falsy": falsy, "metas": metas}
 
     def observe(self, case):
         from edgegraph.structure import singleton
         singleton.clear_true_singleton()
-        classes = make_classes(case["parents"], case.get("falsy"))
+        classes = make_classes(case["parents"], case.get("falsy"), case.get("metas"))
         ids = {}
         obs = []
         try:
@@ -221,7 +237,7 @@ class History(Leg):
     def shrink_candidates(self, case):
         ops = case["ops"]
         for i in range(len(ops)):
-            yield {"parents": case["parents"], "ops": ops[:i] + ops[i + 1:], "falsy": case.get("falsy")}
+            yield {"parents": case["parents"], "ops": ops[:i] + ops[i + 1:], "falsy": case.get("falsy"), "metas": case.get("metas")}
 
     def stats(self, case, obs, acc):
         for op in case["ops"]:
